@@ -88,7 +88,7 @@ theorem newNode_first (cfg : Cfg) (a : Alloc) (h1 : a.nextPage = 1) (h2 : a.free
 theorem initRoot_stats {cfg : Cfg} (hc : CfgOk cfg) (a : Alloc) (h1 : a.nextPage = 1) (h2 : a.free = [])
     (h3 : a.leafKeys = 0) (h4 : a.pagesFree = 0) (ha : a.fault = none) :
     StatsOk (initRoot cfg a) ∧ (initRoot cfg a).root.pid = 1 := by
-  obtain ⟨_, _, hcons, hl, hcnt, hpid⟩ := initRoot_spec hc a ha
+  obtain ⟨_, _, hcons, hl, hcnt, hpid, _⟩ := initRoot_spec hc a ha
   refine ⟨⟨by rw [hl, hcnt, h3]; rfl, ?_⟩, by rw [hpid]; exact newNode_first cfg a h1 h2⟩
   have := hcons.3
   rw [h2, h4] at this
@@ -105,7 +105,7 @@ theorem newTreeFile_stats {cfg : Cfg} (hc : CfgOk cfg) :
 theorem set_stats {cfg : Cfg} (hc : CfgOk cfg) (t : Tree) (k : Key) (v : Val) (hinv : TreeInv cfg t)
     (hk : setKeyPanic k = false) (hs : StatsOk t) :
     StatsOk (set cfg t k v) ∧ (set cfg t k v).root.pid = t.root.pid := by
-  obtain ⟨_, _, hcons, hlk, hpid⟩ := set_spec hc t k v hinv hk
+  obtain ⟨_, _, hcons, hlk, hpid, _⟩ := set_spec hc t k v hinv hk
   refine ⟨⟨?_, ?_⟩, hpid⟩
   · have := hs.1; omega
   · have := hcons.3; have := hs.2; omega
@@ -113,7 +113,7 @@ theorem set_stats {cfg : Cfg} (hc : CfgOk cfg) (t : Tree) (k : Key) (v : Val) (h
 theorem deleteBelow_stats {cfg : Cfg} (hc : CfgOk cfg) (t : Tree) (ts : Val) (hinv : TreeInv cfg t)
     (hp : ∀ p ∈ pids t.root, PosPid p) (hs : StatsOk t) :
     StatsOk (deleteBelow t ts) ∧ (deleteBelow t ts).root.pid = t.root.pid := by
-  obtain ⟨_, _, _, hcons, _, hlk, hpid⟩ := deleteBelow_spec hc t hinv hp ts
+  obtain ⟨_, _, _, hcons, _, hlk, hpid, _⟩ := deleteBelow_spec hc t hinv hp ts
   refine ⟨⟨hlk, ?_⟩, hpid⟩
   have := hcons.3; have := hs.2; omega
 
@@ -136,5 +136,32 @@ theorem iterateKV_stats {cfg : Cfg} (t : Tree) (f : Key → Val → Val) (hinv :
   rw [h4, e2] at e1
   injection e1 with e1
   exact e1.symm
+
+/-! ## the pages in use fit the buffer / file -/
+
+theorem set_fits {cfg : Cfg} (hc : CfgOk cfg) (t : Tree) (k : Key) (v : Val) (hinv : TreeInv cfg t)
+    (hk : setKeyPanic k = false) (hf : AllocFits cfg t.a) (hb : Bounded cfg (set cfg t k v).a) :
+    AllocFits cfg (set cfg t k v).a :=
+  (set_spec hc t k v hinv hk).2.2.2.2.2.fits hb hf
+
+theorem deleteBelow_fits {cfg : Cfg} (hc : CfgOk cfg) (t : Tree) (ts : Val) (hinv : TreeInv cfg t)
+    (hp : ∀ p ∈ pids t.root, PosPid p) (hf : AllocFits cfg t.a) : AllocFits cfg (deleteBelow t ts).a := by
+  obtain ⟨_, _, _, _, h5, _, _, h8, h9⟩ := deleteBelow_spec hc t hinv hp ts
+  unfold AllocFits at *
+  rw [h5, h8, h9]; exact hf
+
+theorem iterateKV_fits {cfg : Cfg} (t : Tree) (f : Key → Val → Val) (hinv : TreeInv cfg t)
+    (hf : AllocFits cfg t.a) : AllocFits cfg (iterateKV t f).a := by
+  obtain ⟨_, _, _, _, _, h6⟩ := iterateKV_spec t hinv f
+  rw [h6]; exact hf
+
+/-- a fresh persistent tree: the 1 MiB file holds the first pages (`pageSize ≤ 2^19`) -/
+theorem newTreeFile_fits {cfg : Cfg} (hc : CfgOk cfg) (hps : cfg.pageSize ≤ 2 ^ 19)
+    (hb : Bounded cfg (newTreeFile cfg).a) : AllocFits cfg (newTreeFile cfg).a := by
+  have h0 : AllocFits cfg (Alloc.mk 1 [] 0 0 (minSize.toNat - 8) minSize.toNat none) := by
+    unfold AllocFits
+    have : minSize.toNat = 1048576 := by decide
+    simp only [this]; omega
+  exact (initRoot_spec hc _ rfl).2.2.2.2.2.2.fits hb h0
 
 end RV.Tree
